@@ -93,4 +93,4 @@ if __name__ == '__main__':
         'REDUCED SCOPE: schedules are not explored; the composition of the stage-local obligations into deadlock freedom is an argument on paper (DESIGN.md 6/C06)',
         'all shared state of a channel is accessed under its mutex (syntactic fact recorded by the extractor for every method of UncompressedFile, ObjectQueue, CompressedFile)',
         'a notified waiter re-evaluates its predicate (std::condition_variable contract)',
-        'NOT covered: a single object larger than the stream threshold (codec read of n > threshold bytes while the appender is held back) - reproduced natively as a hang, see DESIGN.md section 7']))
+        'a request larger than the threshold: UncompressedFile::read raises the threshold to the request before it waits (call-site fact of the exclusion lemma, asserted at the wait); the hang it repaired is recorded as fixed in known_findings.json']))
